@@ -93,7 +93,7 @@ func (s *sharedEntryAttributes) toJsonInternal(onlyNewOrUpdated bool, ietf bool)
 					return nil, nil
 				}
 				le := s.leafVariants.GetHighestPrecedence(false, false)
-				if onlyNewOrUpdated && !(le.IsNew || le.IsUpdated) {
+				if le == nil || (onlyNewOrUpdated && !(le.IsNew || le.IsUpdated)) {
 					return nil, nil
 				}
 			}
